@@ -144,8 +144,13 @@ def C03(tier, seed):
     res.violations += [dict(v, prop="C03") for v in h2["violations"] if v.get("prop") == "C03"]
     res.violations += harness_crash_violations(h2, "C03")
     res.add_stats(vlib.merge_stats(h2["stats"]))
+    # the out-of-memory half of the clause "on a syntax or out-of-memory failure nothing remains allocated": the parse sweep of the fault driver
+    h3 = vlib.run_harness(exe, ["fault", "--only", "0", "--seed", str(seed), "--tier", tier], out, "c03fault")
+    res.violations += harness_crash_violations(h3, "C03")
+    res.add_stats(vlib.merge_stats(h3["stats"]))
+    res.violations += validate_stream(res, "Trace_Fault", out, "c03fault", "C03", also=("C14",))
     res.coverage["rule"] = ("every prefix t[0..k) of a corpus of texts parsed as an explicit range (a) flush against a PROT_NONE page and (b) in the middle of a buffer followed by the rest of the text or by "
-        "content that would extend the token (']', digits, hex, delimiters, 0xFF); TLC (Trace_Parse) requires the outcome to be the specification's outcome for the range alone, every reported span inside the input "
+        "content that would extend the token (']', digits, hex, delimiters, 0xFF); parses with the k-th request of the supplied manager failing, for every k (ledger must be empty afterwards, in the SUPPLIED manager); TLC (Trace_Parse, Trace_Fault) requires the outcome to be the specification's outcome for the range alone, every reported span inside the input "
         "(or the placeholder), an empty ledger after failure and no release on repeated free; a read past the range is a fault event. non-trivial = every case; distinct by (buffer, k)")
     res.coverage["exhaustive"] = False
     res.assumptions = ["the over-read clause is decided by the execution environment (guard pages, ASan) making the access an event; the specification forbids the event", "TLC/SANY, CommunityModules"]
@@ -456,6 +461,16 @@ def C14(tier, seed):
     return res
 
 def C13(tier, seed):
+    res = _C13(tier, seed)
+    # "released ... with exactly the pointer it returned", "no block is outstanding" also hold on the failure paths: the fault sweep's ledger clauses
+    out = os.path.join(vlib.RUNROOT, "run", "C13")
+    h = vlib.run_harness(vlib.build("asan"), ["fault", "--seed", str(seed), "--tier", tier], out, "c13fault", timeout=3000)
+    res.violations += harness_crash_violations(h, "C13")
+    res.add_stats(vlib.merge_stats(h["stats"]))
+    res.violations += validate_stream(res, "Trace_Fault", out, "c13fault", "C13", also=("C14",))
+    return res
+
+def _C13(tier, seed):
     return _simple("C13", tier, seed, "MC_Ledger", "MC_Ledger.cfg", "MC_Ledger.cfg",
         "the ledger automaton over all short histories: balanced exactly when every handed-out block is released once and nothing else is released",
         "ledger", "Trace_Ledger",
